@@ -386,6 +386,12 @@ def prox_block(desc, x, s, g=0):
         t2 = desc["alpha"] * s * desc["weights_groups"][g]
         r = np.linalg.norm(st)
         return np.zeros_like(x) if r <= t2 else (1 - t2 / r) * st
+    if k == "L2_05":
+        r = float(np.linalg.norm(x))
+        if r == 0:
+            return np.zeros_like(x)
+        us, _ = prox_scalar({"kind": "L0_5", "alpha": desc["alpha"]}, r, float(s))
+        return (us[0] / r) * x
     if k in ("BlockMCPenalty", "BlockSCAD"):
         r = float(np.linalg.norm(x))
         if r == 0:
